@@ -313,6 +313,40 @@ class Rearr(OpDef):
         return tape.apply("gather", nids, {"ids": self.ids(ids, p)}, const)
 
 
+class GetItemT(OpDef):
+    """x[i] where the index i is itself an integer Tensor (operand 1): MyGrad keeps the index object
+    on the recorded op but does not treat it as a graph input.  The functional model uses the
+    index *values at the time of the call*."""
+
+    name = "getitem_t"
+    nin = 2
+    exact = True
+    spellings = ("o",)
+    unlocked_args = (1,)  # the index tensor's memory is not an operand MyGrad locks
+
+    @staticmethod
+    def _ix(i, p):
+        f = p.get("form", "bare")
+        if f == "tuple":
+            return (i,)
+        if f == "col":
+            return (slice(None), i)
+        return i
+
+    def np(self, a, p):
+        return a[0][self._ix(np.array(a[1], copy=True), p)]
+
+    def mg(self, mg, spell, a, p, kw):
+        return a[0][self._ix(a[1], p)]
+
+    def tape(self, tape, nids, p, const, vals):
+        shape = tape.nodes[nids[0]].val.shape
+        ids = np.arange(int(np.prod(shape)) if len(shape) else 1, dtype=np.int64).reshape(shape)
+        iv = np.asarray(tape.nodes[nids[1]].val)
+        iv = iv.astype(bool) if p.get("bool") else iv.astype(np.int64)
+        return tape.apply("gather", [nids[0]], {"ids": np.asarray(ids[self._ix(iv, p)])}, const)
+
+
 def _gi_np(x, p):
     return x[dec_index(p["index"])]
 
@@ -424,6 +458,7 @@ _reg(SeqOp("add_sequence", "add"))
 _reg(SeqOp("multiply_sequence", "mul"))
 
 _reg(Rearr("getitem", _gi_np, _gi_mg, spellings=("o",)))
+_reg(GetItemT())
 _reg(Rearr("reshape", lambda x, p: np.reshape(x, tuple(p["shape"])), _reshape_mg))
 _reg(Rearr("ravel", lambda x, p: np.ravel(x), _simple("ravel")))
 _reg(Rearr("flatten", lambda x, p: x.flatten(), _simple("flatten"), spellings=("m",), view_capable=False))
